@@ -364,6 +364,9 @@ class FuncFacts:
             return merged, common
         if isinstance(stmt, (ast.For, ast.While)):
             assigned = set(self._assigned_names(stmt.body))
+            walrus = [n for n in ast.walk(stmt.test)] if isinstance(stmt, ast.While) else []
+            walrus = [n for n in walrus if isinstance(n, ast.NamedExpr) and isinstance(n.target, ast.Name)]
+            assigned |= {n.target.id for n in walrus}
             lenv = dict(env)
             for k in list(lenv):
                 root = k.split(".")[0]
@@ -378,13 +381,16 @@ class FuncFacts:
                 self._assign(lenv, stmt.target, mk_call(ITER, [resolve(stmt.iter, env)]))
                 bfacts = lfacts
             else:
-                bfacts = lfacts + self._resolved_atoms(stmt.test, lenv, True)
+                # `while (v := f(..)) is None:` binds v at the loop head, before every execution of the body
+                for n in walrus:
+                    lenv[n.target.id] = resolve(n.value, lenv)
+                bfacts = lfacts + self._resolved_atoms(_strip_walrus(stmt.test), lenv, True)
             self._walk_block(stmt.body, lenv, bfacts, loops + (stmt,), tries, handlers)
             # after the loop: carried names unknown
             aenv = dict(lenv)
             afacts = list(lfacts)
             if isinstance(stmt, ast.While) and not _has_break(stmt.body):
-                afacts += self._resolved_atoms(stmt.test, lenv, False)
+                afacts += self._resolved_atoms(_strip_walrus(stmt.test), lenv, False)
             if stmt.orelse:
                 r = self._walk_block(stmt.orelse, aenv, afacts, loops, tries, handlers)
                 if r is None and not _has_break(stmt.body):
@@ -452,6 +458,14 @@ class FuncFacts:
 
     def _resolved_atoms(self, test, env, positive) -> List[Atom]:
         return atoms_of(resolve(test, env), positive)
+
+
+def _strip_walrus(e: ast.AST) -> ast.AST:
+    """replace (v := expr) by v (the binding is done separately)."""
+    class T(ast.NodeTransformer):
+        def visit_NamedExpr(self, node):
+            return ast.copy_location(ast.Name(id=node.target.id, ctx=ast.Load()), node) if isinstance(node.target, ast.Name) else node
+    return T().visit(copy.deepcopy(e))
 
 
 def _load(t: ast.AST) -> ast.AST:
